@@ -104,7 +104,7 @@ def intDecodeOer (width : Nat) (positive : Bool) (buf : Bytes) : IntRes :=
   let go (req off : Nat) : IntRes :=
     if req > buf.length - off then .more                        -- `req_bytes > size`
     else if positive then
-      -- `msb = *(const uint8_t *)ptr >> 7` is read even when `req_bytes == 0`
+      -- `msb = *(const uint8_t *)ptr >> 7`; `req_bytes == 0` is rejected before (variable size) or impossible (width)
       match buf[off]? with
       | none => .oob
       | some b => .ok ((if b / 128 % 2 = 1 then [0] else []) ++ (buf.drop off).take req) (off + req)
@@ -115,6 +115,6 @@ def intDecodeOer (width : Nat) (positive : Bool) (buf : Bytes) : IntRes :=
     | .more => .more
     | .fail => .fail
     | .oob => .oob
-    | .ok len used => go len used
+    | .ok len used => if len = 0 then .fail else go len used     -- X.696 10.2: at least one octet (repair of F5)
 
 end Asn1c.Impl.OerSupport
